@@ -102,6 +102,11 @@ func (r *Record) decode(pd packetDecoder) (err error) {
 	}
 
 	if numHeaders >= 0 {
+		// every header occupies at least two bytes (two varint lengths): a count beyond that cannot be
+		// honest, and sizing the slice with it would allocate whatever a corrupted record asks for
+		if numHeaders > int64(pd.remaining()) {
+			return ErrInsufficientData
+		}
 		r.Headers = make([]*RecordHeader, numHeaders)
 	}
 	for i := int64(0); i < numHeaders; i++ {
